@@ -38,6 +38,7 @@ def run(ctx):
     wm = model(ctx)
     ctx.decided("ZiPatch::create reaches no filesystem-mutating call (READONLY)")
     ctx.decided("path comparisons and strip_prefix respect the tree each path was listed under (ROOTS)")
+    ctx.decided("applying an AddFile chunk writes its data whenever the target opens (APPLY)")
     ctx.decided("AddFile/DeleteFile chunk contents, order, and the EndOfFile chunk on every successful path (CHUNKS)")
     ctx.decided("symmetry of the written records and of the block writer/reader constants (W2)")
     ctx.not_decided("content equality after apply; zero-byte files; block sizes around 128 and 32000")
@@ -161,6 +162,17 @@ def run(ctx):
                 if val_r and dir_r:
                     n_sp += 1
                     ctx.ob("ROOTS", f"strip|{sorted(dir_r)}", val_r == dir_r, f"strip_prefix(dir of tree {sorted(dir_r)}) is applied to a path listed under tree {sorted(val_r)}", cb.file, cb.line)
+
+    # ---- APPLY: the apply side of the round trip writes every AddFile it is given (shared with C03 MUSTDO)
+    from .c03 import addfile_region, addfile_writes_when_opened
+
+    ab_ = prog.body("patch::ZiPatch::apply")
+    reg_ = addfile_region(prog, ab_) if ab_ else None
+    if not reg_:
+        ctx.fail_closed("APPLY", "AddFile arm of ZiPatch::apply not found")
+    else:
+        ok_, det_ = addfile_writes_when_opened(prog, ab_, reg_)
+        ctx.ob("APPLY", "AddFile|writes-when-opened", ok_, det_, ab_.file, ab_.line, sample=True)
 
     # ---- CHUNKS
     adds = dels = 0
